@@ -77,6 +77,9 @@ impl From<HashSet<UtxoRef>> for Subset {
 pub struct SearchSpace {
     pub union: Subset,
     pub intersection: Subset,
+    /// refs that satisfy every hard constraint of the query (address and explicit refs);
+    /// asset matches only prioritize within this set, they never widen it
+    pub required: Subset,
     pub by_address_count: Option<usize>,
     pub by_asset_class_count: Option<usize>,
     pub by_ref_count: Option<usize>,
@@ -87,6 +90,7 @@ impl SearchSpace {
         Self {
             union: Subset::NotSet,
             intersection: Subset::NotSet,
+            required: Subset::NotSet,
             by_address_count: None,
             by_asset_class_count: None,
             by_ref_count: None,
@@ -113,6 +117,7 @@ impl SearchSpace {
 
     fn include_address_matches(&mut self, subset: Subset) {
         *self.by_address_count.get_or_insert(0) += subset.count().unwrap_or(0);
+        self.required = Subset::intersection(self.required.clone(), subset.clone());
         self.include_subset(subset);
     }
 
@@ -123,6 +128,7 @@ impl SearchSpace {
 
     fn add_ref_matches(&mut self, utxos: HashSet<UtxoRef>) {
         *self.by_ref_count.get_or_insert(0) += utxos.len();
+        self.required = Subset::intersection(self.required.clone(), Subset::Specific(utxos.clone()));
         self.include_matches(utxos);
     }
 
@@ -135,12 +141,13 @@ impl SearchSpace {
         // if we have a specific limit, we need to pick the best options. The
         // intersection are the best matches since they are the most specific, so we
         // take from them first. If we don't have enough, we take the remaining from the
-        // union.
+        // refs that still satisfy the address and ref constraints (never from the plain
+        // union, which would let a utxo outside `from` or `ref` into the candidates).
 
         let best: HashSet<_> = self.intersection.clone().into();
 
         if best.len() < take {
-            let others: HashSet<_> = self.union.clone().into();
+            let others: HashSet<_> = self.required.clone().into();
             let diff: HashSet<_> = others.difference(&best).cloned().collect();
             let remaining: HashSet<_> = diff.into_iter().take(take - best.len()).collect();
             best.union(&remaining).cloned().collect()
